@@ -266,7 +266,7 @@ def documented_env(id_: str) -> Any:
     return cls()
 
 
-def shipped_check(stats: Stats, seed: int) -> None:
+def shipped_check(stats: Stats, seed: int, reverse: bool = False) -> None:
     """All shipped ids instantiate (Sokoban through the DOWNLOAD stub); two make(id) calls give equal
     specs and identical behaviour on a short shared run."""
     import jax
@@ -275,7 +275,8 @@ def shipped_check(stats: Stats, seed: int) -> None:
     from jsim import fakes
 
     fakes.install_sokoban_download_stub()
-    ids = sorted(jumanji.registered_environments())
+    # the order in which the ids are first made in a process must not matter (class-level caches filled by whoever comes first)
+    ids = sorted(jumanji.registered_environments(), reverse=reverse)
     if len(ids) < 25:
         raise Violation("C18", "registry", "shipped", "shipped_ids_missing", f"only {len(ids)} ids registered: {ids}")
     rng = util.sub_rng(seed, "c18shipped")
@@ -352,9 +353,9 @@ def run_task(prop: Any, task: Dict[str, Any]) -> Dict[str, Any]:
     violations: List[Dict[str, Any]] = []
     seen = set()
     cfg = task["cfg"]
-    if cfg["id"] == "shipped":
+    if cfg["id"].startswith("shipped"):
         try:
-            shipped_check(stats, task["seed"])
+            shipped_check(stats, task["seed"], reverse=cfg["id"].endswith("_rev"))
             stats.runs += 1
             digests += [1, 2]
             nontrivial += [True, True]
@@ -417,8 +418,8 @@ def run_task(prop: Any, task: Dict[str, Any]) -> Dict[str, Any]:
 
 def replay(v: Dict[str, Any], path: str) -> int:
     try:
-        if v["config"]["id"] == "shipped":
-            shipped_check(Stats(), v["seed"])
+        if v["config"]["id"].startswith("shipped"):
+            shipped_check(Stats(), v["seed"], reverse=v["config"]["id"].endswith("_rev"))
         else:
             execute(v["ops"], Stats())
     except Violation as got:
